@@ -109,13 +109,14 @@ def real_saturating(chk, tier, own):
                       edges=[zoo.E("s.out", "big.in"), zoo.E("s.out", "one.in")], ctl={"ALL.sleep": "0.05"}))
     # re-run shape: some outputs exist already (skipped tasks must not touch the slots)
     pre = saturating_instance(rng, 99); pre["pre"] = ["w0.out_2", "w0.out_3"]; insts.append(pre)
-    # streaming producer/consumer pairs compete for the slots like everybody else
-    for mx in (3, 4):
+    # streaming producer/consumer pairs compete for the slots like everybody else. n streamed items need at least n + 1 slots (Flow.tla:
+    # all producers can acquire first) - the property states 2n -, so two streamed items on 4 / 5 slots; the saturation comes from "w"
+    for mx in (4, 5):
         insts.append(dict(name="SATSTREAM%d" % mx, max=mx, bufsize=4,
-                          procs=[zoo.src("s", zoo.items(5)), zoo.cmd("w", ["in"], ["out"], cores=1),
+                          procs=[zoo.src("s", zoo.items(6)), zoo.src("t", zoo.items(2, "t")), zoo.cmd("w", ["in"], ["out"], cores=1),
                                  dict(name="p", kind="cmd", ins=["in"], outs=["out"], streams=["out"], cores=1),
                                  zoo.cmd("c", ["in"], ["out"], cores=1)],
-                          edges=[zoo.E("s.out", "w.in"), zoo.E("s.out", "p.in"), zoo.E("p.out", "c.in")],
+                          edges=[zoo.E("s.out", "w.in"), zoo.E("t.out", "p.in"), zoo.E("p.out", "c.in")],
                           ctl={"ALL.sleep": "0.04"}))
     def one(inst):
         vs = fc.jitter_variants(random.Random(rng.random()), 3 if tier == "quick" else 6, bufs=(inst["bufsize"],))
@@ -285,6 +286,25 @@ def behind_slow_head_scenario(chk):
         else:
             chk.nontrivial.add("window")
 
+def multi_release_scenario(chk):
+    """4 slots: a 3-core task and a 1-core task run; when the 1-core task ends three 1-core tasks become ready, one of them gets the free
+    slot, the other two wait. When the 3-core task releases its three slots AT ONCE, both waiting tasks fit and must start: the three
+    rendez-vous with each other."""
+    inst = dict(name="WAKE", max=4, bufsize=4,
+                procs=[zoo.src("s", ["1"]), zoo.cmd("big", ["in"], ["out"], cores=3), zoo.cmd("trig", ["in"], ["out"]),
+                       zoo.cmd("w1", ["x"], ["out"]), zoo.cmd("w2", ["x"], ["out"]), zoo.cmd("w3", ["x"], ["out"])],
+                edges=[zoo.E("s.out", "big.in"), zoo.E("s.out", "trig.in"), zoo.E("trig.out", "w1.x"), zoo.E("trig.out", "w2.x"), zoo.E("trig.out", "w3.x")],
+                ctl={"big.sleep": "1.0", "trig.sleep": "0.3", "w1.rendezvous": "g", "w2.rendezvous": "g", "w3.rendezvous": "g", "rendezvous.g.n": "3"})
+    for rr in fc.real_runs(inst, [dict(env={}, bufsize=4, timeout=40), dict(env={"VERIF_JITTER": "11"}, bufsize=4, timeout=40)]):
+        chk.evaluations += 1
+        if rr.rc != 0 or not rr.completed:
+            timed = [r for r in rr.cmdlog if r["tag"] == "T"]
+            chk.violation("a 3-core task released its slots while two 1-core tasks were waiting: they did not both start (tasks that fit into the free slots "
+                          "together did not execute simultaneously; %s)" % ("rendez-vous timed out" if timed else "rc=%s %s" % (rr.rc, rr.stderr[-200:])),
+                          dict(instance=inst, cmdlog=rr.cmdlog))
+        else:
+            chk.nontrivial.add("multi-release")
+
 def oversize_scenarios(chk):
     cases = []
     for mx, c in ((1, 2), (2, 3), (3, 5)):
@@ -320,5 +340,6 @@ def check_C07(tier):
     oversize_scenarios(chk)
     shared_output_scenario(chk)
     behind_slow_head_scenario(chk)
+    multi_release_scenario(chk)
     real_saturating(chk, tier, {"C07"})
     return chk.finish()
